@@ -151,10 +151,19 @@ func (s *Store) CACheckAndSetConfig(idx, cidx uint64, config *structs.CAConfigur
 	tx := s.db.WriteTxn(idx)
 	defer tx.Abort()
 
+	if err := s.caCheckAndSetConfigTxn(idx, cidx, tx, config); err != nil {
+		return false, err
+	}
+
+	err := tx.Commit()
+	return err == nil, err
+}
+
+func (s *Store) caCheckAndSetConfigTxn(idx, cidx uint64, tx WriteTxn, config *structs.CAConfiguration) error {
 	// Check for an existing config
 	existing, err := tx.First(tableConnectCAConfig, "id")
 	if err != nil {
-		return false, fmt.Errorf("failed CA config lookup: %s", err)
+		return fmt.Errorf("failed CA config lookup: %s", err)
 	}
 
 	// If the existing index does not match the provided CAS
@@ -162,15 +171,10 @@ func (s *Store) CACheckAndSetConfig(idx, cidx uint64, config *structs.CAConfigur
 	// return early here.
 	e, ok := existing.(*structs.CAConfiguration)
 	if (ok && e.ModifyIndex != cidx) || (!ok && cidx != 0) {
-		return false, errors.Errorf("ModifyIndex did not match existing")
+		return errors.Errorf("ModifyIndex did not match existing")
 	}
 
-	if err := s.caSetConfigTxn(idx, tx, config); err != nil {
-		return false, err
-	}
-
-	err = tx.Commit()
-	return err == nil, err
+	return s.caSetConfigTxn(idx, tx, config)
 }
 
 func (s *Store) caSetConfigTxn(idx uint64, tx WriteTxn, config *structs.CAConfiguration) error {
@@ -272,6 +276,30 @@ func (s *Store) CARootSetCAS(idx, cidx uint64, rs []*structs.CARoot) (bool, erro
 		if err == errCARootIndexMismatch {
 			return false, nil
 		}
+		return false, err
+	}
+
+	err := tx.Commit()
+	return err == nil, err
+}
+
+// CARootSetAndConfigCAS replaces the CA roots and the CA configuration in a
+// single transaction: either both check-and-set operations apply or neither
+// does. The boolean result is false when the roots index did not match; a
+// configuration index mismatch is reported as an error, as it is by
+// CACheckAndSetConfig.
+func (s *Store) CARootSetAndConfigCAS(idx, cidx uint64, rs []*structs.CARoot, config *structs.CAConfiguration) (bool, error) {
+	tx := s.db.WriteTxn(idx)
+	defer tx.Abort()
+
+	if err := caRootSetCASTxn(tx, idx, cidx, rs); err != nil {
+		if err == errCARootIndexMismatch {
+			return false, nil
+		}
+		return false, err
+	}
+
+	if err := s.caCheckAndSetConfigTxn(idx, config.ModifyIndex, tx, config); err != nil {
 		return false, err
 	}
 
